@@ -365,7 +365,16 @@ class Gen(object):
     if t is None: return None
     c = self.pick_col(tabs, t, lambda c: c[2] or self.rng.random() < 0.2)
     if not c: return None
-    return ["ModifyColumn", t, c[0], {"formula": self.rng.choice(FORMULAS)}]
+    return ["ModifyColumn", t, c[0], {"formula": self.formula_for(c[3])}]
+
+  def formula_for(self, current):
+    """A new formula text: usually another formula, sometimes a near-copy of the current one
+    (trailing / leading whitespace, a comment) - edits an 'is this a no-op?' shortcut must still
+    treat as edits of the stored text."""
+    if current and self.rng.random() < 0.25:
+      return self.rng.choice([current + " ", current + "\n", current + "  # c", " " + current,
+                              current.rstrip() + "\t", current])
+    return self.rng.choice(FORMULAS)
 
   def k_to_formula(self, e, tabs, dts):
     t = self.pick_table(tabs, dts)
